@@ -5,7 +5,7 @@ import tpcommon as T
 from engine import Op, set_mode
 
 PROP = "C06"
-LEAN_MODULES = ["IsoDT.Props.C06"]
+LEAN_MODULES = ["IsoDT.Props.C06", "IsoDT.Props.C06b", "IsoDT.Props.C02q"]
 RULE = ("source points (3 representations, any offset, 24:00) x destination offsets from the boundary list and "
         "uniform in -99:59..+99:59 (thorough: all 199 x 119 sign-consistent (h, m) pairs); zone-bearing dump "
         "formats; non-trivial when the local date changes; distinct by (op, arguments)")
@@ -217,5 +217,69 @@ class DumpZone(Op):
         return "dumpzone/%s/%s/%s" % (a[0], a[1][0], "Z" if a[2].endswith("Z") else "num")
 
 
+import qcommon as Q   # noqa: E402
+
+
+class TzQ(Op):
+    """to_time_zone on points with fractional / absent slots against the rational model toTimeZoneQ
+    (Props/C02q: C06_to_time_zone_rat): representation, requested offset, slot pattern and the instant
+    to the microsecond; the re-zoned point must compare equal to the original (both orders) when the
+    slots are exactly representable."""
+    prop = PROP
+    name = "tzq"
+
+    def from_corpus(self, a):
+        return (a[0], Q.norm_point(a[1])) + tuple(a[2:])
+
+    def gen(self, rng, tier, boost):
+        n = (2000 if tier == "quick" else 30000) * boost
+        if getattr(self, "shard", None):
+            n = n // self.shard[1] + 1
+        for _ in range(n):
+            m = gens.mode(rng)
+            p = Q.gen_qpoint(rng, m)
+            yield (m, p) + tuple(gens.offset(rng))
+
+    def line(self, a):
+        return "tzq %s %s %d %d" % (a[0], Q.tokens(a[1]), a[2], a[3])
+
+    def impl(self, a):
+        from metomi.isodatetime.data import TimeZone
+        set_mode(a[0])
+        p = Q.mk_point(a[1])
+        r = p.to_time_zone(TimeZone(hours=a[2], minutes=a[3]))
+        date, H, M, S, tzh, tzm = Q.slots_of(r)
+        self.last = (H, M, S, r == p and p == r)
+        return Q.canon(a[0], date, H, M, S, tzh, tzm)
+
+    def canon_model(self, a, out):
+        return Q.canon_model_point(a[0], out)
+
+    def oracle(self, a, out):
+        m, p, h, mi = a
+        f = out.split()
+        what = "%s re-zoned to %+d:%02d in %s" % (Q.describe(p), h, abs(mi), m)
+        if len(f) != 5:
+            return "%s failed: %s" % (what, out)
+        if abs(int(f[4]) - Q.inst(m, p) * 10 ** 6) > 1:
+            return "%s moved the instant by %s us" % (what, int(f[4]) - Q.inst(m, p) * 10 ** 6)
+        if (int(f[1]), int(f[2])) != (h, mi) or f[0] != p[0]:
+            return "%s: offset or representation not as requested (%s)" % (what, out)
+        if f[3] != {"s": "hms", "m": "hm", "h": "h"}[Q.form_of(p)]:
+            return "%s changed the precision form to %s" % (what, f[3])
+        H, M, S, equal = self.last
+        if p[4] == 24 and (h, mi) == (p[7], p[8]):
+            pass        # unchanged offset: the point itself is returned, 24:00 kept as written
+        elif not Q.in_range(H, M, S):
+            return "%s left a slot out of range: %r" % (what, (float(H), M and float(M), S and float(S)))
+        # (a decimal-hour point shifted by a number of minutes that is not a multiple of 15 gets an hour
+        # value binary64 cannot hold: equality is then float noise, finding F17, judged by cmpq)
+        if not equal and Q.dyadic(p) and ((mi - p[8]) % 15 == 0 or Q.form_of(p) != "h"):
+            return "%s does not compare equal to the original" % what
+
+    def label(self, a):
+        return "tzq/%s" % Q.form_of(a[1])
+
+
 def ops():
-    return [ToTZ(), Local(), MkTZ(), DumpZone()]
+    return [ToTZ(), Local(), MkTZ(), DumpZone(), TzQ()]
